@@ -35,6 +35,10 @@ import os
 import textwrap
 
 
+def it_name(s):
+    return s.iter.id
+
+
 class Unsupported(Exception):
     pass
 
@@ -111,6 +115,7 @@ class Translator:
         self.sigs = {}      # (cls, method) -> (param list [(name, ty)], ret ty, pure, raises, oracle params)
         self.float_consts = float_consts or {}
         self.fresh = 0
+        self.extra_defs = []
 
     def gensym(self, base):
         self.fresh += 1
@@ -140,6 +145,7 @@ class Translator:
         pure = bool(spec.get("pure"))
         m = MethodCtx(self, cls, name, params, pure, parse_ty(spec["ret"]) if "ret" in spec else None)
         body = list(fn.body)
+        n_extra = len(self.extra_defs)
         text = m.block(body, m.initial_env(), "method")
         ret = m.ret_ty or "unit"
         oracle_params = m.oracle_params
@@ -149,7 +155,7 @@ class Translator:
         rty = coq_ty(ret) if pure else f"({cls.name} * {coq_ty(ret)})"
         if m.raises:
             rty = f"(option {rty})"
-        return f"Definition {cls.name}_{name} {args} : {rty} :=\n{textwrap.indent(text, '  ')}.\n"
+        return "".join(self.extra_defs[n_extra:]) + f"Definition {cls.name}_{name} {args} : {rty} :=\n{textwrap.indent(text, '  ')}.\n"
 
 
 class Env:
@@ -271,6 +277,8 @@ class MethodCtx:
         if not stmts:
             if mode == "loop":
                 return "self"
+            if isinstance(mode, tuple) and mode[0] == "locloop":
+                return "(" + ", ".join(list(mode[1]) + ["false"]) + ")"
             self.set_ret("unit", None)
             return self.result("tt")
         s, rest = stmts[0], stmts[1:]
@@ -278,6 +286,10 @@ class MethodCtx:
             return self.block(rest, env, mode)     # docstring
         if isinstance(s, ast.Pass):
             return self.block(rest, env, mode)
+        if isinstance(s, ast.Break):
+            if isinstance(mode, tuple) and mode[0] == "locloop":
+                return "(" + ", ".join(list(mode[1]) + ["true"]) + ")"
+            _u(s, "break outside a local-state for loop")
         if isinstance(s, ast.AugAssign):
             load = self._as_load(s.target)
             s = ast.copy_location(ast.Assign(targets=[s.target], value=ast.BinOp(left=load, op=s.op, right=s.value), lineno=s.lineno), s)
@@ -601,12 +613,14 @@ class MethodCtx:
     def for_stmt(self, s, rest, env, mode):
         if s.orelse:
             _u(s, "for/else")
+        it = s.iter
+        if isinstance(it, ast.Name) and env.locals.get(it.id) == ("list", "Z") and isinstance(s.target, ast.Name):
+            return self.local_for(s, rest, env, mode)
         for n in ast.walk(s):
             if isinstance(n, (ast.Break, ast.Continue, ast.Return, ast.Raise)):
                 _u(n, "break/continue/return/raise inside a for loop")
         if self.pure:
             _u(s, "loop in a pure method")
-        it = s.iter
         benv = env.copy()
         if isinstance(it, ast.Call) and isinstance(it.func, ast.Attribute) and it.func.attr == "items" and not it.args:
             d, dt = self.expr(it.func.value, env)
@@ -627,6 +641,40 @@ class MethodCtx:
             return (f"let self := fold_left (fun self kv_ => let {k} := fst kv_ in let {v} := snd kv_ in\n"
                     f"{textwrap.indent(body, '    ')}) {d} self in\n" + self.block(rest, env, mode))
         _u(s, "unsupported for loop")
+
+    def local_for(self, s, rest, env, mode):
+        """for k in <list Z local>: body that only reads self/params and assigns locals; `break` allowed.
+        The locals that exist before the loop and are assigned in it are the loop state (plus a `broken` flag)."""
+        for n in ast.walk(s):
+            if isinstance(n, (ast.Continue, ast.Return, ast.Raise, ast.While)) or (isinstance(n, ast.For) and n is not s):
+                _u(n, "continue/return/raise/nested loop inside a local-state for loop")
+            if isinstance(n, (ast.Assign, ast.AugAssign, ast.AnnAssign)):
+                for t in (n.targets if isinstance(n, ast.Assign) else [n.target]):
+                    if not isinstance(t, ast.Name):
+                        _u(n, "a local-state for loop may assign local names only")
+            if isinstance(n, ast.Expr) and not (isinstance(n.value, ast.Constant)):
+                _u(n, "expression statement inside a local-state for loop")
+        if any(self._is_dict_read(n, env) for n in ast.walk(s)):
+            _u(s, "d[k] read inside a loop body")
+        assigned = []
+        for n in ast.walk(s):
+            if isinstance(n, (ast.Assign, ast.AugAssign, ast.AnnAssign)):
+                for t in (n.targets if isinstance(n, ast.Assign) else [n.target]):
+                    if t.id in env.locals and t.id not in assigned:
+                        assigned.append(t.id)
+        if s.target.id in assigned or not assigned:
+            _u(s, "local-state for loop without carried locals / assigning its own target")
+        k = s.target.id
+        benv = env.copy()
+        benv.locals[k] = "Z"
+        benv.narrow = {}
+        body = self.block(list(s.body), benv, ("locloop", tuple(assigned)))
+        pat = "'(" + ", ".join(assigned + ["brk_"]) + ")"
+        init = "(" + ", ".join(assigned + ["false"]) + ")"
+        env = env.copy()
+        sty = " * ".join([coq_ty(env.locals[v]) for v in assigned] + ["bool"])
+        return (f"let {pat} := fold_left (fun (st_ : {sty}) ({k} : Z) => let {pat} := st_ in if brk_ then st_ else\n"
+                f"{textwrap.indent(body, '    ')}) {it_name(s)} {init} in\n" + self.block(rest, env, mode))
 
     def while_stmt(self, s, rest, env, mode):
         # while self.L and self.L[0] < cutoff: self.L.pop(0)      ==> drop-while
@@ -787,7 +835,32 @@ class MethodCtx:
                 return f"({c.name}_{e.attr} {x})", ret
         _u(e, f"attribute {e.attr} of a value of type {t}")
 
+    def set_union(self, e, env):
+        def dict_of(x):
+            if isinstance(x, ast.Call) and isinstance(x.func, ast.Name) and x.func.id == "set" and len(x.args) == 1 and not x.keywords:
+                d, dt = self.expr(x.args[0], env)
+                if dt == "dict":
+                    for n in ast.walk(x.args[0]):
+                        if isinstance(n, ast.Name) and n.id != "self" and n.id not in dict(self.params):
+                            _u(x, "set() of a dict reached through a local")
+                    return d
+            return None
+        a, b = dict_of(e.left), dict_of(e.right)
+        if a is None or b is None:
+            return None
+        nm = self.tr.gensym("setiter")
+        self.oracle_params.append((nm, ("list", "Z")))
+        args = " ".join([f"(self : {self.cls.name})"] + [f"({p} : {coq_ty(t)})" for p, t in self.params])
+        self.tr.extra_defs.append(
+            f"(** elements of the set `{ast.unparse(e)}` that `{nm}` (its iteration order, arbitrary in Python) ranges over *)\n"
+            f"Definition {self.cls.name}_{self.name}_{nm.rsplit('_', 1)[0]}_elems {args} : list Z :=\n  map fst {a} ++ map fst {b}.\n")
+        return nm, ("list", "Z")
+
     def binop(self, e, env, want=None):
+        if isinstance(e.op, ast.BitOr):
+            r = self.set_union(e, env)
+            if r is not None:
+                return r
         a, at = self.expr(e.left, env, want if want == "F" else None)
         b, bt = self.expr(e.right, env, want if want == "F" else None)
         op = e.op
